@@ -14,7 +14,9 @@ import LexVerif.Proof.SepStrip5
   carried separator flags; the former refutation witnesses are now regression theorems (`sep_free_regression_*`).
 * `strip_preserves` (R1): for the class where every digit component skips every separator (I+L+T+C), an input accepted
   as a number is accepted, as the same number, after deleting the separators. `strip_preserves_full` (all formats) is
-  refuted by the I+T+C class (`strip_witness_itc`).
+  refuted by the I+T+C class (`strip_witness_itc`). **`Props/C13Gen.lean` extends R1 to every flag combination on
+  every component except I+T+C on the integer / fraction component (`strip_preserves_all`), and R3 to the same classes
+  under the documented position rules (`insert_preserves_doc`).**
 * `position_witness_*` (R2): separators accepted at positions the flags do not enable.
 * `insert_preserves` (R3): the converse for the same class — separators inserted anywhere except directly in front of
   a sign keep the input accepted as the same number.
